@@ -899,3 +899,54 @@ def mutex_table(ni: int, ck: int):
                 la.release()
         finally:
             sb.close()
+
+
+@obligation(
+    "C09.calls_random_beyond_bound",
+    covers=("preemptions>=3",),
+    split={"sc": SCENARIOS},
+    tiers=("thorough",),
+    bounds="BEYOND the pre-emption bound (sampling, not exhaustive): per scenario 150 schedules with 3..8 pre-emptions at steps drawn "
+           "from a PRNG seeded by (VERIF_SEED, scenario, sample index); same checks as calls_p1; 2 threads",
+    variables="choice: sample index (the schedule is derived from it deterministically)",
+    stubs=("CoopLock / CoopLocal",),
+    budget_s={"thorough": 900},
+    setup=install_twins,
+    expect_inconclusive=False,
+    choice_vars=1,
+)
+def calls_random_beyond_bound(sc: tuple, sample: int):
+    import random
+
+    sample = pick(sample, 150)
+    with concrete_region():
+        install_twins()
+        store, key, state = sc
+        ref = _sequential_reference(store, key, state, 2)
+        rnd = random.Random("%s/%s/%d" % (os.environ.get("VERIF_SEED", "0"), list(sc), sample))
+        n = rnd.randint(3, 8)
+        steps = sorted(rnd.sample(range(max(n, ref["steps"] + 40)), n))
+        schedule = [(s_, 0) for s_ in steps]
+        # steps beyond the end of the run simply never fire (allowed here: these are samples, not an enumeration)
+        sb, prog, calls = _prepare(store, key, state, 2)
+        prog.close()
+        sb.close()
+        drv = _run_scenario_lenient(store, key, state, schedule)
+        if drv is not None and drv.preemptions_used >= 3:
+            cover("preemptions>=3")
+        note({"schedule": schedule})
+
+
+def _run_scenario_lenient(store, key, state, schedule):
+    """_run_scenario with pre-emption slots that may fall beyond the end of the run or onto a thread that cannot be pre-empted"""
+    orig = sched.Sched.__init__
+
+    def init(self, entries, schedule_, max_steps=4000, allow_unfired=False):
+        orig(self, entries, schedule_, max_steps=max_steps, allow_unfired=True)
+        self.lenient = True
+
+    sched.Sched.__init__ = init
+    try:
+        return _run_scenario("G", store, key, state, schedule, 2)
+    finally:
+        sched.Sched.__init__ = orig
